@@ -105,7 +105,7 @@ func run(o *Options) int {
 	var keys []string
 	if o.Funcs == "all" {
 		for k, fc := range sp.Funcs {
-			if !fc.Extern && !fc.Iface {
+			if !fc.Extern && !fc.Iface && !fc.Trusted {
 				keys = append(keys, k)
 			}
 		}
